@@ -41,6 +41,14 @@ inline int g_dyn_alias[NK]; // which alias objects of class i carry
 // ---------------------------------------------------------------------------
 // RTTI facets for the custom flavours
 
+#if defined(TAG_prn)
+#define TAG_prj 1
+#define HX_NOHASH 1
+#endif
+#if defined(TAG_dfh)
+#define TAG_dfr 1
+#define HX_KEEPHASH 1
+#endif
 #if defined(TAG_int) || defined(TAG_prj) || defined(TAG_dfr)
 #define HX_CUSTOM_RTTI 1
 template<class T>
@@ -131,9 +139,17 @@ struct P : policy::release::rebind<P>::replace<
 struct P : policy::release::rebind<P>::replace<policy::rtti, custom_rtti>::
                remove<policy::type_hash> {};
 #define HX_TAG "int"
+#elif defined(TAG_prj) && defined(HX_NOHASH)
+struct P : policy::release::rebind<P>::replace<policy::rtti, custom_rtti>::
+               remove<policy::type_hash> {};
+#define HX_TAG "prn"
 #elif defined(TAG_prj)
 struct P : policy::release::rebind<P>::replace<policy::rtti, custom_rtti> {};
 #define HX_TAG "prj"
+#elif defined(TAG_dfr) && defined(HX_KEEPHASH)
+struct P : policy::release::rebind<P>::replace<policy::rtti, custom_rtti> {};
+#define HX_TAG "dfh"
+#define HX_DEFERRED 1
 #elif defined(TAG_dfr)
 struct P : policy::release::rebind<P>::replace<policy::rtti, custom_rtti>::
                remove<policy::type_hash> {};
